@@ -11,7 +11,7 @@
    - [msg_ok w m]: delta updates name an existing set, add only absent / remove only present members;
      removals name existing objects; full updates list no member twice. *)
 From stdpp Require Import gmap.
-From Verif.C02 Require Import Model Spec Proofs.
+From Verif.C02 Require Import Model Spec Proofs ProofsLoop.
 
 (* After EVERY single emitted message the dataplane is reference-closed. *)
 Theorem c02_refs_present : forall late h q ms a m b,
@@ -44,6 +44,15 @@ Theorem c02_net_effect : forall late h o q ms,
   apply_msgs world0 ms = upstream world0 h.
 Proof. exact net_effect. Qed.
 Print Assumptions c02_net_effect.
+
+(* AsyncCalcGraph loop (flush throttling + in-sync forwarding around the sequencer): as long as the input
+   has not reported in-sync (no LStatus true among the loop's inputs so far), no InSync message has been
+   emitted, whatever the updates, ticks and flush orders were.  Every prefix of a run is a run, so this is
+   "in-sync is never reported before the datastore reported it". *)
+Theorem c02_insync_not_early : forall late h a ms,
+  (forall e o, (e, o) ∈ h -> e <> LStatus true) -> loop_run late ast0 h = Some (a, ms) -> MInSync ∉ ms.
+Proof. exact insync_not_early. Qed.
+Print Assumptions c02_insync_not_early.
 
 (* The full statement is FALSE of the faithful model with the order of the code as it stands: a history
    inside the plain contract whose stream is rejected (a VTEP is removed while a route still needs it). *)
